@@ -32,6 +32,7 @@ ALPHA = [
     ('thd-data tid3 pid99 by 2', lambda ts: [R('PERF_THD_Data', 0, (99, 3, 0, 0), tid=2, ts=ts)]),
     ('wait@2', lambda ts: [R('MACH_WAIT', 0, (0x10, 0, 0, 0), tid=2, ts=ts)]),
     ('exec-data pid 20 by 3', lambda ts: [R('TRACE_DATA_EXEC', 0, (20, 0, 0, 0), tid=3, ts=ts)]),
+    ('thread-terminate of 1 reported by 2', lambda ts: [R('TRACE_DATA_THREAD_TERMINATE', 0, (1, 0, 0, 0), tid=2, ts=ts)]),
     ('exec-string by 3', lambda ts: [R('TRACE_STRING_EXEC', 0, tid=3, ts=ts, data=b'e' * 32)]),
 ]
 MAPS = [[], [(1, 10, 'A')], [(1, 10, 'A'), (2, 20, 'B')], [(1, 2, 'A'), (2, 1, 'B'), (3, 3, 'C')],   # tids collide with pids
@@ -139,7 +140,7 @@ def model(m, seq):
             old = (dict(tp), dict(pn))
             tp[3] = 99
             out.append((2, [old, (dict(tp), dict(pn))]))
-        elif nm.startswith('wait'):
+        elif nm.startswith('wait') or nm.startswith('thread-terminate'):
             out.append((2, [(dict(tp), dict(pn))]))
         elif nm.startswith('exec-data'):
             last_exec[3] = 20
@@ -285,7 +286,7 @@ class C14(Check):
                 blob = dump(m, seq)
                 for api in ('formatted_kevents', 'formatted_traces'):
                     bad, n = judge_compose(blob, api)
-                    acc.case(nontrivial=any(i in (2, 3, 4, 5, 7, 8) for i in seq), transitions=n, outcome=h64((m, seq, api)))
+                    acc.case(nontrivial=any(i in (2, 3, 4, 5, 7, 9) for i in seq), transitions=n, outcome=h64((m, seq, api)))
                     acc.count('format_calls', n)
                     if bad:
                         acc.violation(bad[0], {'kind': 'compose', 'map': m, 'seq': list(seq), 'api': api}, bad[1])
@@ -296,7 +297,7 @@ class C14(Check):
             _, m, streams = desc
             for seq in streams:
                 bad = judge_process(m, seq)
-                acc.case(nontrivial=any(i in (2, 3, 4, 5, 7, 8) for i in seq), transitions=2, outcome=h64((m, seq, 'p')))
+                acc.case(nontrivial=any(i in (2, 3, 4, 5, 7, 9) for i in seq), transitions=2, outcome=h64((m, seq, 'p')))
                 if bad:
                     acc.violation(bad[0], {'kind': 'process', 'map': m, 'seq': list(seq), 'readable': [ALPHA[i][0] for i in seq]}, bad[1])
                 elif acc.want_sample() and len(seq) == 3 and 4 in seq:
@@ -313,7 +314,7 @@ class C14(Check):
         elif desc[0] == 'cli':
             from mc.cli import run_cli
             for m in range(len(MAPS)):
-                for seq in ((0, 2, 3, 1), (7, 8, 6, 4, 1), (5, 1, 0)):
+                for seq in ((0, 2, 3, 1), (7, 9, 6, 4, 8, 1), (5, 1, 0)):
                     blob = dump(m, seq)
                     for cmd, api in (('traces', 'formatted_traces'), ('kevents', 'formatted_kevents'), ('callstacks', 'formatted_callstacks')):
                         for show_tid in (False, True):
